@@ -177,7 +177,11 @@ func (ex *Exec) assert(c *Term) {
 }
 
 func (ex *Exec) check(extra ...*Term) Result {
-	return ex.sol.Check(extra...)
+	r := ex.sol.Check(extra...)
+	if r == Unknown && !ex.sol.dead {
+		r = ex.sol.OneShot(ex.pcond, extra, ex.inputs, 90)
+	}
+	return r
 }
 
 // branch decides a symbolic condition; forks when both sides are feasible.
